@@ -13,6 +13,12 @@ Theorem C07_rule_table : forall s first last,
 Proof. exact rule_table_is_spec. Qed.
 Print Assumptions C07_rule_table.
 
+(* the xml:space rule used by the model is the one regenerated from the source *)
+Theorem C07_directive : forall attrs inherited,
+  get_normalize_space_directive attrs (dir_str inherited) = dir_str (directive attrs inherited).
+Proof. exact directive_is_generated. Qed.
+Print Assumptions C07_directive.
+
 Theorem C07_spec : forall n, reduce_model n = reduce_spec n.
 Proof. exact model_is_spec. Qed.
 Print Assumptions C07_spec.
